@@ -13,13 +13,13 @@ META = {
     "level": "proof",
     "design_ref": "DESIGN.md §6 C01",
     "text": "The same template text and value go to the real code (Template::Render on an exact-size buffer; ASan+UBSan+LSan, per-batch timeout) and to the compiled Lean model; the rendered text and the parsed tag tree must be identical, and the real code must never produce a sanitizer report, a signal or a hang.  Any fault of the real code is a C01 failure with the input line and the sanitizer stack as replay.",
-    "note": "Trusted: Lean kernel for the theorems; g++ as translator of the pattern tables; the harness; ASan/UBSan semantics of 'fault'.  Compared domain: integer-valued math, no sort=/group= (the model driver does not format reals nor sort/group); those constructs are still run on the real code for faults (stream g3).",
+    "note": "Trusted: Lean kernel for the theorems; g++ as translator of the pattern tables; the harness; ASan/UBSan semantics of 'fault'.  Compared domain: integer-valued math, group= through the GroupBy model of C18, no sort= (the model driver does not format reals nor sort); those constructs are still run on the real code for faults (stream g3).",
 }
 
 THEOREMS = ["Qentem.Props.C01." + t for t in [
     "tables_width_independent", "finder_safe_total", "expr_scan_safe", "render_safe_of_wf",
     "parse_wf_varraw", "render_safe_varraw", "parse_wf_inline", "render_safe_inline",
-    "parse_text", "render_text"]]
+    "parse_text", "render_text", "checkLoopVariable_safe", "expr_scan_total", "parse_wf_loops", "render_safe_loops", "finder_facts"]]
 OPEN_STATEMENTS = ["Qentem.Props.C01.ParseWF (what parse returns is well-formed) for contents with loop / if / inline-if / svar tags: evaluated per run through the driver op tplwf on every generated template",
                    "Qentem.Props.C01.ParseSafe / RenderSafe for those contents: decided per run by the sanitizer streams and the model correspondence"]
 
@@ -480,6 +480,9 @@ class TG:
                 atts.append("sort=%s%s%s" % (q, rng.choice(["ascend", "descend", "a", "", "x"]), q))
             if rng.random() < 0.4:
                 atts.append("group=%s%s%s" % (q, rng.choice(["k", "p", "a", "0", "zz", ""]), q))
+        elif rng.random() < 0.12:
+            # group= is compared too: the driver's groupBy is the GroupBy model (Qentem.Value.groupByTmpl)
+            atts.append("group=%s%s%s" % (q, rng.choice(["k", "p", "a", "0", "zz", ""]), q))
         rng.shuffle(atts)
         head = "<loop" + "".join(rng.choice([" ", " ", "  ", "\n"]) + a for a in atts) + self.sp() + ">"
         if name is not None:
@@ -1271,7 +1274,7 @@ def run(ctx):
     ctx.correspond("huge", [huge_lines[j][:120] + "...(%d units)" % len(line_units(huge_lines[j])) for j in hk], [h_impl[j] for j in hk], [h_model[j] for j in hk])
     ctx.assumptions += [
         "code units modelled as Nat; the four widths are exercised by the harness, units are masked to the width by the generator",
-        "compared domain: integer-valued math, no sort=/group= (run on the real code only, stream g3)",
+        "compared domain: integer-valued math, group= (GroupBy model of C18), no sort= (run on the real code only, stream g3)",
         "recursion depth of parse/render (stack exhaustion) and allocation failure are not exhibited (nesting <= 17 quick / 300 thorough)",
     ]
 
